@@ -50,6 +50,34 @@ structure MapFieldM (f : FieldD) (c : Nat) : Prop where
 theorem mapKey_scalar (t : PType) (h : isMapKeyType t = true) : isScalarType t = true := by
   cases t <;> first | rfl | (exact absurd h (by decide))
 
+/-! ### `KeysDistinct` is what a Python dict guarantees
+
+  All keys of a map field have the one key type `f.mapK`, so the mixed `int` / `bool`
+  cases of `keyEq` (`True == 1`) never arise: on well-typed keys `keyEq` is equality, and
+  `KeysDistinct` says that no key occurs twice. -/
+
+theorem keyEq_typed (t : PType) (a b : Val) (ht : isMapKeyType t = true)
+    (ha : scalarOk t a = true) (hb : scalarOk t b = true) : keyEq a b = true ↔ a = b := by
+  cases a <;> cases b <;> simp [scalarOk] at ha hb <;> simp [keyEq]
+  all_goals first
+    | (obtain ⟨⟨h, _⟩, _⟩ := ha; subst h; exact absurd ht (by decide))
+    | (obtain ⟨h, _⟩ := ha; subst h; exact absurd ht (by decide))
+    | (subst hb; simp [intInRange] at ha)
+    | (subst ha; simp [intInRange] at hb)
+
+theorem keysDistinct_of_nodup (t : PType) (ht : isMapKeyType t = true) :
+    ∀ (ks : List Val), (∀ x ∈ ks, scalarOk t x = true) → ks.Nodup → KeysDistinct ks
+  | [], _, _ => trivial
+  | k :: ks, hks, hnd => by
+    rw [List.nodup_cons] at hnd
+    refine ⟨fun k' hk' => ?_, keysDistinct_of_nodup t ht ks (fun x hx => hks x (by simp [hx])) hnd.2⟩
+    cases h : keyEq k k' with
+    | false => rfl
+    | true =>
+      have := (keyEq_typed t k k' ht (hks k (by simp)) (hks k' (by simp [hk']))).mp h
+      subst this
+      exact absurd hk' hnd.1
+
 /-! ### `dictInsert` of a new key appends -/
 
 theorem keysDistinct_append (a b : List Val) (h : KeysDistinct (a ++ b)) :
@@ -539,8 +567,190 @@ theorem slotStep_mapM (S : Schema) (n : Nat) (d : MsgD) (k : Nat) (f : FieldD) (
     hdist hsel
     (fun vs' h => ValEqv.dict ks vs vs' (listEqv_of_forall₂ S vs vs' h))
 
+/-! ### the same without side condition, for a weaker relation on the values
+
+  `ValEqv` cannot relate a message that encodes to nothing to the fresh default the map
+  decoder puts in its place (unless it IS that default).  With the relation extended by
+  exactly this case the step holds for every dict. -/
+
+/-- a map value and its decoded copy: equivalent, or — when the original encodes to no
+    byte, so that the entry carries no value record — the fresh default of the class -/
+def MapValEqv (S : Schema) (c : Nat) (x x' : Val) : Prop :=
+  ValEqv S x x' ∨ (dumpVal S x = .ok [] ∧ x' = fresh S c)
+
+/-- same keys, values related by `MapValEqv` -/
+def MapDictEqv (S : Schema) (c : Nat) (v v' : Val) : Prop :=
+  ∃ ks vs vs', v = Val.dict ks vs ∧ v' = Val.dict ks vs' ∧ List.Forall₂ (MapValEqv S c) vs vs'
+
+theorem slotStep_mapM_weak (S : Schema) (n : Nat) (d : MsgD) (k : Nat) (f : FieldD) (c : Nat) (dc : MsgD) (sel : Bool)
+    (ks vs : List Val)
+    (hd : NumsDistinct d.fields) (hk : d.fields[k]? = some f) (hmf : MapFieldM f c) (hdc : S[c]? = some dc)
+    (hlen : ks.length = vs.length) (hks : ∀ x ∈ ks, scalarOk f.mapK x = true)
+    (hinner : ∀ x ∈ vs, (∃ sl ow unk cur, x = Val.msg c sl ow unk cur) ∧ RoundTrips S (loadInto S n) x)
+    (hdist : KeysDistinct ks) (hsel : sel = false) :
+    SlotStep S (loadInto S (n + 1)) d (fun _ v v' => MapDictEqv S c v v') k f false sel (.dict ks vs) :=
+  slotStep_map_gen S n d k f sel ks vs (MapValEqv S c) _ hd hk hmf.ty hmf.kty hmf.num hmf.rep hmf.opt hmf.grp
+    hlen hks
+    (fun x hx => valStep_msg S _ f c dc x _ hmf.vty hmf.vk hdc (hinner x hx).1 (hinner x hx).2
+      (fun _ h => Or.inl h) (fun he => Or.inr ⟨he, rfl⟩))
+    hdist hsel
+    (fun vs' h => ⟨ks, vs, vs', rfl, rfl, h⟩)
+
+/-! ### the side condition of `slotStep_mapM`, decidably -/
+
+/-- raw slots of a fresh instance -/
+def slotsFreshB : List FieldD → List Val → Bool
+  | [], [] => true
+  | f :: fs, .none :: vs => f.optional && slotsFreshB fs vs
+  | f :: fs, .ph :: vs => !f.optional && slotsFreshB fs vs
+  | _, _ => false
+
+/-- `x` is exactly `fresh S c` -/
+def isFreshB (S : Schema) (c : Nat) : Val → Bool
+  | .msg c' sl ow unk cur =>
+    c' == c && !ow && unk.isEmpty && cur == List.replicate (groupsOf S c) Option.none && slotsFreshB (fieldsOf S c) sl
+  | _ => false
+
+/-- the values `slotStep_mapM` covers: non-empty encoding, or exactly the fresh instance -/
+def mapValOkB (S : Schema) (c : Nat) (x : Val) : Bool :=
+  (match dumpVal S x with
+   | .ok [] => false
+   | _ => true) || isFreshB S c x
+
+theorem slotsFreshB_eq : ∀ (fs : List FieldD) (vs : List Val), slotsFreshB fs vs = true →
+    vs = fs.map fun f => if f.optional then Val.none else Val.ph
+  | [], [], _ => rfl
+  | [], _ :: _, h => by simp [slotsFreshB] at h
+  | _ :: _, [], h => by simp [slotsFreshB] at h
+  | f :: fs, v :: vs, h => by
+    cases v <;> simp [slotsFreshB] at h
+    · rw [List.map_cons, h.1, slotsFreshB_eq fs vs h.2]; rfl
+    · rw [List.map_cons, h.1, slotsFreshB_eq fs vs h.2]; rfl
+
+theorem isFreshB_eq (S : Schema) (c : Nat) (x : Val) (h : isFreshB S c x = true) : x = fresh S c := by
+  cases x <;> simp [isFreshB] at h
+  obtain ⟨⟨⟨⟨h1, h2⟩, h3⟩, h4⟩, h5⟩ := h
+  subst h1; subst h2; subst h3; subst h4
+  rw [slotsFreshB_eq _ _ h5]
+  rfl
+
+theorem mapValOkB_spec (S : Schema) (c : Nat) (x : Val) (h : mapValOkB S c x = true)
+    (he : dumpVal S x = .ok []) : x = fresh S c := by
+  unfold mapValOkB at h
+  rw [he] at h
+  exact isFreshB_eq S c x (by simpa using h)
+
+/-! ### examples: non-vacuity, and the counterexample behind the side condition
+
+  (`Val` has no decidable equality, so equalities between values are closed by `rfl` —
+  the same kernel evaluation `decide` performs; Bool / byte-string facts by `decide`.) -/
+
+/-- class 0: one int32; class 1: `map<int32, Class0> m = 1; map<string, float> s = 2` -/
+def SMap : Schema :=
+  [ { fields := [{ name := "i", num := 1, ty := .int32 }] },
+    { fields := [{ name := "m", num := 1, ty := .map, mapK := .int32, mapV := .message, mapVKind := .user 0 },
+                 { name := "s", num := 2, ty := .map, mapK := .string, mapV := .float }] } ]
+
+example : MapFieldM (SMap[1]!.fields[0]!) 0 := ⟨rfl, rfl, rfl, rfl, rfl, rfl, rfl, rfl, rfl⟩
+example : MapFieldS (SMap[1]!.fields[1]!) := ⟨rfl, rfl, rfl, rfl, rfl, rfl, rfl, rfl⟩
+
+/-- scalar values come back bit for bit: the empty-string key (not written, read back as
+    the default), the value `-0.0` (no default check inside an entry: it IS written) -/
+def mS : Val := .msg 1 [.ph, .dict [.str [], .str [97]] [.f32 0x80000000, .f32 0]] false [] []
+example : dumpVal SMap mS = .ok [18, 5, 21, 0, 0, 0, 128, 18, 8, 10, 1, 97, 21, 0, 0, 0, 0] := by decide
+example : parse SMap 1 [18, 5, 21, 0, 0, 0, 128, 18, 8, 10, 1, 97, 21, 0, 0, 0, 0]
+    = .ok (.msg 1 [.ph, .dict [.str [], .str [97]] [.f32 0x80000000, .f32 0]] true [] []) := by rfl
+
+/-- a message value with a non-empty encoding comes back with `serialized_on_wire` set -/
+def mM1 : Val := .msg 1 [.dict [.int 7] [.msg 0 [.int 5] false [] []], .ph] false [] []
+example : dumpVal SMap mM1 = .ok [10, 6, 8, 7, 18, 2, 8, 5] := by decide
+example : parse SMap 1 [10, 6, 8, 7, 18, 2, 8, 5]
+    = .ok (.msg 1 [.dict [.int 7] [.msg 0 [.int 5] true [] []], .ph] true [] []) := by rfl
+example : mapValOkB SMap 0 (.msg 0 [.int 5] false [] []) = true := by decide
+example : mapValOkB SMap 0 (fresh SMap 0) = true := by decide
+
+/-- COUNTEREXAMPLE: a map value that encodes to nothing but is not the fresh instance —
+    here an instance marked `serialized_on_wire` (e.g. one that was itself parsed from
+    empty input); likewise `.msg 0 [.int 0] false [] []` (field set to its default).  The
+    entry carries the key only; the decoder materialises a fresh `Class0()` whose
+    `serialized_on_wire` is FALSE, and `ValEqv` relates nothing to that but itself. -/
+def xBad : Val := .msg 0 [.ph] true [] []
+def mBad : Val := .msg 1 [.dict [.int 7] [xBad], .ph] false [] []
+example : mapValOkB SMap 0 xBad = false := by decide
+example : mapValOkB SMap 0 (.msg 0 [.int 0] false [] []) = false := by decide
+example : dumpVal SMap xBad = .ok [] := by decide
+example : dumpVal SMap mBad = .ok [10, 2, 8, 7] := by decide
+example : parse SMap 1 [10, 2, 8, 7] = .ok (.msg 1 [.dict [.int 7] [.msg 0 [.ph] false [] []], .ph] true [] []) := by rfl
+/-- the decoded map value is not `serialized_on_wire` (by `decide`, on a projection) -/
+def firstMapValOnWire : Val → Option Bool
+  | .msg _ (.dict _ (x :: _) :: _) _ _ _ => some (onWireOf x)
+  | _ => Option.none
+example : ((dumpVal SMap mBad).bind (parse SMap 1)).map firstMapValOnWire = .ok (some false) := by decide
+example : fresh SMap 0 = .msg 0 [.ph] false [] [] := rfl
+example : ¬ ValEqv SMap xBad (.msg 0 [.ph] false [] []) := by
+  intro h; cases h
+example : ¬ ValEqv SMap (.dict [.int 7] [xBad]) (.dict [.int 7] [.msg 0 [.ph] false [] []]) := by
+  intro h
+  cases h with
+  | dict _ _ _ hl =>
+    cases hl with
+    | cons _ _ _ _ h1 _ => cases h1
+/-- … while the weaker relation holds, and the re-encoding is the same -/
+example : MapValEqv SMap 0 xBad (.msg 0 [.ph] false [] []) := Or.inr ⟨by decide, rfl⟩
+example : dumpVal SMap (.msg 1 [.dict [.int 7] [.msg 0 [.ph] false [] []], .ph] true [] []) = .ok [10, 2, 8, 7] := by decide
+
+/-- the counterexample meets every hypothesis of `slotStep_mapM` but `hne` … -/
+theorem xBad_roundtrips (n : Nat) : RoundTrips SMap (loadInto SMap (n + 1)) xBad := by
+  intro c d sl ow unk cur bs he hd hdump
+  have he' : Val.msg 0 [.ph] true [] [] = Val.msg c sl ow unk cur := he
+  injection he' with e1 e2 e3 e4 e5
+  subst e1; subst e2; subst e3; subst e4; subst e5
+  have hd' : d = { fields := [{ name := "i", num := 1, ty := .int32 }] } := by
+    have : SMap[0]? = some { fields := [{ name := "i", num := 1, ty := .int32 }] } := rfl
+    rw [this] at hd; injection hd with hd; exact hd.symm
+  have hx : dumpVal SMap xBad = .ok [] := by decide
+  rw [hx] at hdump; injection hdump with hb
+  subst hb; subst hd'
+  exact ⟨[.ph], rfl, ValEqv.refl _, by decide⟩
+
+/-- … and its conclusion FAILS: the side condition cannot be dropped -/
+theorem slotStep_mapM_needs_side_condition :
+    ¬ SlotStep SMap (loadInto SMap 2) SMap[1]! (fun _ v v' => ValEqv SMap v v') 0 SMap[1]!.fields[0]! false false
+        (.dict [.int 7] [xBad]) := by
+  intro h
+  obtain ⟨pfs, v', hp, hj, hrel, hfold⟩ :=
+    h { freshState SMap[1]! with onWire := true } [10, 2, 8, 7] (by decide) (by decide) (by decide) rfl rfl
+      (fun _ => ⟨fun g hg => (by cases hg), fun g hg => (by cases hg)⟩)
+  have hlf := loadFields_join pfs hp
+  rw [hj] at hlf
+  have hlf' : loadFields [10, 2, 8, 7]
+      = .ok [{ num := 1, wt := 2, vint := 0, payload := [8, 7], raw := [10, 2, 8, 7] }] := by decide
+  rw [hlf'] at hlf
+  injection hlf with hpfs
+  subst hpfs
+  rw [if_neg (by decide)] at hfold
+  have hcomp : foldFields SMap (loadInto SMap 2) SMap[1]! { freshState SMap[1]! with onWire := true }
+      [{ num := 1, wt := 2, vint := 0, payload := [8, 7], raw := [10, 2, 8, 7] }]
+      = .ok { slots := [.dict [.int 7] [.msg 0 [.ph] false [] []], .ph], onWire := true, unknown := [], cur := [] } := by
+    rfl
+  rw [hcomp] at hfold
+  injection hfold with hfold
+  have hs : [Val.dict [.int 7] [.msg 0 [.ph] false [] []], Val.ph] = [v', Val.ph] := congrArg MState.slots hfold
+  injection hs with hv' _
+  obtain ⟨hr, _⟩ := hrel (by decide)
+  rw [← hv'] at hr
+  cases hr with
+  | dict _ _ _ hl =>
+    cases hl with
+    | cons _ _ _ _ h1 _ => cases h1
+
 end Bp
 
 #print axioms Bp.entries_fold
+#print axioms Bp.slotStep_map_gen
 #print axioms Bp.slotStep_mapS
 #print axioms Bp.slotStep_mapM
+#print axioms Bp.slotStep_mapM_weak
+#print axioms Bp.mapValOkB_spec
+#print axioms Bp.slotStep_mapM_needs_side_condition
+#print axioms Bp.keysDistinct_of_nodup
